@@ -1,9 +1,9 @@
 """C06 — distributed-mesh invariants at sync points (DESIGN.md section 6, L3 Dist)."""
-from . import streams_dist
+from . import streams_dist, streams_rcb
 
 ID = 'C06'
 PROPS_MODULE = ['Refine.Props.C06']
-STREAMS = streams_dist.STREAMS
+STREAMS = streams_dist.STREAMS + [streams_rcb.RUN, streams_rcb.RUN_MORE]
 TECHNIQUE = 'Lean 4 theorems about an executable SPMD model (World = list of per-rank states) + differential ' \
             'execution against the real ref_node/ref_cell/ref_migrate/ref_adapt code under mpiexec + the model ' \
             'invariant evaluated on state dumps of real runs'
@@ -77,6 +77,9 @@ ASSUMPTIONS = [
     'ref_sort_in_place_glob is modelled by its result (the sorted list); the heap sort itself is C14',
     'dist_run needs REF_VERIF_PARTITIONER_FULL (all ranks stay active) and the default native partitioner; '
     'geometry-association records (ref_geom) and ages are not dumped',
+    'stream rcb_run (package rcb): repeated ref_migrate_to_balance on generated grids; the precondition of the migration '
+    'step (new part in range and identical on owner and ghosts) is proved for the owned entries in Refine.Props.C04Rcb '
+    '(rcb_part_total) and checked on the migrate_shufflin dumps for the ghosts',
     'harness compiled with -fsanitize=address,undefined (leak detection off); refine\'s stdout diagnostics are '
     'redirected to /dev/null',
 ]
